@@ -26,6 +26,8 @@ if [ $# -eq 0 ]; then
   [ "$rcmerge" -ne 0 ] && exit "$rcmerge"
   /venv/bin/python "$here/tools/py2v_json/main.py" --repo "${BIOM_REPO:-/repo}" --out "$here"; rcjson=$?   # JSON writer (tools/regen_json.sh)
   [ "$rcjson" -ne 0 ] && exit "$rcjson"
+  /venv/bin/python "$here/tools/py2v_ord/main.py" --repo "${BIOM_REPO:-/repo}" --out "$here"; rcord=$?   # reorder mode (tools/regen_ord.sh)
+  [ "$rcord" -ne 0 ] && exit "$rcord"
   [ "$rc1" -ne 0 ] && exit "$rc1"
   [ "$rc2" -ne 0 ] && exit "$rc2"
   exit "$rc3"
